@@ -113,7 +113,7 @@ def main(chk):
         if not recs:
             raise tlc.MachineryError(f'Lifecycle.tla pipeline {pipe}: nothing exported')
         rnd.shuffle(recs)
-        histories += recs[:(10 if chk.quick else 80)]
+        histories += recs[:(8 if chk.quick else 80)]
     isolated = 12 if chk.quick else 160
     jobs = [(rec, tmp, i < isolated) for i, rec in enumerate(histories)]
     iso_jobs = [j for j in jobs if j[2]]
@@ -121,7 +121,10 @@ def main(chk):
     results = []
     with concurrent.futures.ThreadPoolExecutor(max_workers=8) as pool:
         results += list(zip(iso_jobs, pool.map(run_history, iso_jobs)))
-    results += [(j, run_history(j)) for j in in_jobs]     # in-process replays share the interpreter: sequential
+    # "in-process" replays: every worker process replays its histories sequentially in one interpreter
+    import multiprocessing
+    with concurrent.futures.ProcessPoolExecutor(max_workers=8, mp_context=multiprocessing.get_context('fork')) as pool:
+        results += list(zip(in_jobs, pool.map(run_history, in_jobs, chunksize=2)))
     ok = 0
     for (rec, _, iso), (k, problem) in results:
         if problem:
